@@ -541,14 +541,11 @@ class MPSBackendImpl:
         """
         times = observable.evaluation_times
 
-        is_observable_eval_time = (
-            times is not None
-            and self.config.is_time_in_evaluation_times(t, times, tol=tolerance)
-        )
+        if times is not None:
+            # the observable's own times replace the default ones
+            return self.config.is_time_in_evaluation_times(t, times, tol=tolerance)
 
-        is_default_eval_time = self.config.is_evaluation_time(t, tol=tolerance)
-
-        return is_observable_eval_time or is_default_eval_time
+        return self.config.is_evaluation_time(t, tol=tolerance)
 
     def fill_results(self) -> None:
         normalized_state = 1 / self.state.norm() * self.state
